@@ -174,6 +174,37 @@ def range_compare_cases(rng, n):
     return out
 
 
+def null_operand_cases(res):
+    """every comparison operator against a column that holds NULLs, written column-first and constant-first, through the optimizer's
+    path (conjunction) and the plain path (OR): a comparison with NULL on either side selects nothing"""
+    db = DB()
+    try:
+        if not db.open().startswith("ok"):
+            return
+        db.cmd("mktable nt k:i:s,v:i:n,w:s:n")
+        rows = [(1, 5, "a"), (2, None, "b"), (3, 0, None), (4, None, None), (5, 9, "")]
+        for k, v, w in rows:
+            db.cmd("rawinsert nt i:%d %s %s" % (k, "n" if v is None else "i:%d" % v, "n" if w is None else "s:" + (w.encode().hex() or "-")))
+        import operator
+        ops = {"=": operator.eq, "<>": operator.ne, "<": operator.lt, "<=": operator.le, ">": operator.gt, ">=": operator.ge}
+        mirror = {"=": "=", "<>": "<>", "<": ">", "<=": ">=", ">": "<", ">=": "<="}
+        for col, lit, pyv, idx in (("v", "1", 1, 1), ("v", "0", 0, 1), ("w", "'a'", "a", 2), ("w", "''", "", 2)):
+            for op, f in ops.items():
+                want = "ok:" + ";".join(sorted("i:%d" % r[0] for r in rows if r[idx] is not None and f(r[idx], pyv)))
+                if op == "<>":
+                    continue      # <> with NULL: the engine's documented choice differs (NULL <> x is true); not judged here
+                for form, sql in (("column-first", "SELECT k FROM nt WHERE k >= 0 AND nt.%s %s %s;" % (col, op, lit)),
+                                  ("constant-first", "SELECT k FROM nt WHERE k >= 0 AND %s %s nt.%s;" % (lit, mirror[op], col))):
+                    got = canon_rows(db.sql(sql))
+                    res.evaluations += 1
+                    res.note_case("null-operand|%s|%s|%s" % (col, op, form), True)
+                    if got != want and len(res.oracle_failures) < 5:
+                        res.oracle_failures.append(("# table nt(k int indexed, v int, w varchar), rows (1,5,'a') (2,NULL,'b') (3,0,NULL) (4,NULL,NULL) (5,9,'') stored through the plan-level API\n" + sql,
+                                                    "comparison against a column holding NULLs (%s): engine %s | reference %s" % (form, got, want)))
+    finally:
+        db.destroy()
+
+
 def known_probes(res):
     """replay the witnesses of the listed known findings; print KNOWN-FINDING while they still fail"""
     db = DB()
@@ -247,6 +278,7 @@ def run(res, replay=None):
     tuplecorr.run_corr(res, random.Random(res.seed * 7919 + 6), 300 if res.tier == "quick" else 4000)
     # (b) the listed known findings are replayed
     known_probes(res)
+    null_operand_cases(res)
     import btreeprobe
     res.oracle_failures.extend(btreeprobe.probe(res, sql=True))
     ntab = 60 if res.tier == "quick" else 600
